@@ -7,7 +7,7 @@ SCALE = {"stringBits": "2", "tagBufSize": "4", "valBufSize": "16"}
 
 
 def multi_root_lemmas(tier):
-    sizes = [(4, 4), (4, 6), (5, 5), (6, 5)] if tier == "quick" else [(a, b) for a in range(4, 8) for b in range(4, 8)]
+    sizes = [(4, 4), (4, 6), (5, 5), (6, 5)] if tier == "quick" else [(a, b) for a in range(4, 7) for b in range(4, 7)] + [(7, 4), (4, 7)]
     ls = []
     for a, b in sizes:
         ls.append(Lemma("Multi.Roots.%dx%d" % (a, b), "verifHarness_Multi_Roots", FM, splits=[{"T1": a - 4, "T2": b - 4}],
